@@ -30,6 +30,15 @@ import (
 
 func leavesC04() []*qast.Node {
 	ls := leavesC03()
+	// mixed int / decimal ranges (outside C03's quantifier, inside C04's: any renderable query)
+	for _, incl := range []bool{true, false} {
+		ls = append(ls, qast.Lf(qast.Leaf{Kind: qast.LRange, Field: "n", Lo: qast.I("1"), Hi: qast.F("2.5"), Incl: incl}))
+		ls = append(ls, qast.Lf(qast.Leaf{Kind: qast.LRange, Field: "n", Lo: qast.F("0.5"), Hi: qast.I("3"), Incl: incl}))
+	}
+	// patterns touching the regexp delimiters
+	for _, p := range []string{`b*\/`, `\/b*`, `\/b?\/c`, `a\/*\/`} {
+		ls = append(ls, qast.Lf(qast.Leaf{Kind: qast.LEq, Field: "s", Val: qast.Wi(p)}))
+	}
 	ls = append(ls, qast.Lf(qast.Leaf{Kind: qast.LEq, Field: "s", Val: qast.Q("*")}))
 	ls = append(ls, qast.Lf(qast.Leaf{Kind: qast.LEq, Field: "s", Val: qast.Q("a?")}))
 	for _, re := range []string{"/b/", "/ab/", "/abc/", "/a*/"} {
